@@ -117,6 +117,8 @@ def first_divergence(exp, got):
     i = 0
     while i < len(le) and i < len(lg) and le[i] == lg[i]:
         i += 1
+    if i > 0 and le[i - 1][0] == 'tuple' and le[i - 1][1] and le[i - 1][1][0] == ['str', "'predel'"]:
+        return 'del'        # CPython raised at the unguarded `del` announced by the marker, the other run went on
     if i >= len(le):
         return None
     e = le[i]
@@ -134,7 +136,7 @@ def outcome_class(o):
 def main(ck):
     tree = cy.Tree('C21')
     rng = ck.rng('flow')
-    nfuncs = ck.pick(128, 640)
+    nfuncs = int(os.environ.get('C21_NFUNCS') or ck.pick(128, 640))   # (env override: development aid only)
     per_mod = ck.pick(16, 40)
     mods = {}
     fmap = {}
